@@ -5,6 +5,7 @@ BURST_UNWIND = ['h_ahbm_read_burst.0:9', 'h_ahbm_read_burst.1:9', 'h_ahbm_write_
 RIG_UNWIND = 14
 PLAN = {
     'property': 'C13',
+    'standard_checks': False,      # functional obligations; memory-safety of these functions is C18's subject (default checks also cover spec code and are slow)
     'units': [{'name': 'dma', 'tu': ['src/dma.cpp', 'src/ahbm.cpp'], 'roots': ROOTS,
                'must_fire': ['SharedMemory::raw[i] -> VERIF_RAW_READ(raw, i) (bounds = outcome/obligation)', 'SharedMemory::raw[i] = v -> VERIF_RAW_WRITE(raw, i, v)', 'std::queue<T> -> verif_queue_T']}],
     'harness_files': ['harness/c13.c'], 'contract_files': ['contracts/dma_contracts.h'], 'spec_files': ['spec/dma_spec.h'],
